@@ -14,6 +14,7 @@ structure St where
   held : Option Call := none            -- the call that is inside `Checkpoint()`: it holds `stateMu`
   queue : List Call := []               -- calls issued meanwhile: blocked on `stateMu`, run after it in order
   maxHanded : Nat := 0                  -- history: the highest id handed out so far in this storage, across restarts
+  spConfig : Option Nat := none         -- the job is configured with the savepoint URI of this checkpoint (kept across restarts)
 
 def natList (s : String) : List Nat :=
   if s == "-" then [] else (s.splitOn ",").map natOr
@@ -87,7 +88,9 @@ def release (st : St) : St × String :=
     let (st2, ms, ss) := st.queue.foldl (fun (acc : St × List String × List String) q =>
       let (s', m, sp) := call2 acc.1 q
       (s', acc.2.1 ++ [m], acc.2.2 ++ [sp])) (st1, [m0], [s0])
-    (st2, tagged ("released " ++ joinWith " ; " ms) ("released " ++ joinWith " ; " ss))
+    -- savepoints published inside the window are not used for restarts (their artifact creation races with the
+    -- later publications of the window on the real store; see the harness)
+    ({ st2 with savepoints := st.savepoints }, tagged ("released " ++ joinWith " ; " ms) ("released " ++ joinWith " ; " ss))
 
 def step (st : St) : List String → St × String
   | ["create", ops, srs] => issue st (.create (natList ops) (natList srs))
@@ -107,9 +110,15 @@ def step (st : St) : List String → St × String
       let written := if mode == "fresh" then [] else st.sys.pub.written
       -- a fresh storage location starts a new lineage from the savepoint; in the job's own storage the ids
       -- handed out so far stay taken
-      ({ st with sys := Publish.bootSavepoint (natOr k) files written st.sys.pub.delivered, armed := false,
-                 maxHanded := if mode == "fresh" then natOr k else st.maxHanded },
-       s!"loaded {natOr k}")
+      let st' := { st with sys := Publish.bootSavepoint (natOr k) files written st.sys.pub.delivered, armed := false,
+                           maxHanded := if mode == "fresh" then natOr k else st.maxHanded, spConfig := some (natOr k) }
+      -- D64 (open): the job is ALREADY configured with this savepoint (this is a restart of the same job, not a
+      -- reconfiguration) and its storage holds a newer completed checkpoint: the code goes back to the savepoint,
+      -- the property demands the newest completed checkpoint
+      let newest := Publish.maxL files
+      if mode != "fresh" && st.spConfig == some (natOr k) && newest > natOr k then
+        (st', s!"loaded {natOr k} #spec loaded {newest} #kf D64")
+      else (st', s!"loaded {natOr k}")
     else (st, "nosavepoint")
   | ["current"] =>
     if st.held.isSome then (st, "skipped") else
@@ -119,8 +128,8 @@ def step (st : St) : List String → St × String
   | ["restart"] =>
     if st.held.isSome then (st, "skipped") else
     match Publish.step st.sys .crash with
-    | some (s', [.loaded none]) => ({ st with sys := s', armed := false }, "loaded none")
-    | some (s', [.loaded (some n)]) => ({ st with sys := s', armed := false }, s!"loaded {n}")
+    | some (s', [.loaded none]) => ({ st with sys := s', armed := false, spConfig := none }, "loaded none")
+    | some (s', [.loaded (some n)]) => ({ st with sys := s', armed := false, spConfig := none }, s!"loaded {n}")
     | _ => (st, "model-error")
   | _ => (st, "bad-op")
 
